@@ -21,7 +21,8 @@ EXTENDS Integers, Sequences, FiniteSets, TLC, Json
 CONSTANTS Pool,      \* slot names, the same for every kind
           MaxDim,    \* bound on every size, row, col, order
           Vals,      \* numeric cell values (naturals; they are valid double, int and size_t values)
-          Kinds      \* kinds whose operations are enabled: subset of {"dv","uv","iv","sv","mx","tn","dl"}
+          Kinds,     \* kinds whose operations are enabled: subset of {"dv","uv","iv","sv","mx","tn","dl"}
+          Depth      \* bound on the length of a history (number of calls)
 
 VARIABLES vec, sv, mx, tn, dl,   \* the shadow containers
           op                      \* ghost: last action, its arguments, what it used / created / changed
@@ -104,7 +105,8 @@ Fn == [dv |-> [cNew |-> "NewDVector", cInit |-> "initDVector", cDel |-> "DelDVec
        iv |-> [cNew |-> "NewIVector", cInit |-> "initIVector", cDel |-> "DelIVector",
                cAppend |-> "IVectorAppend", cRemoveAt |-> "IVectorRemoveAt", cExtend |-> "IVectorExtend",
                cSet |-> "setIVectorValue", cGet |-> "getIVectorValue", cHas |-> "IVectorHasValue", cFill |-> "IVectorSet"]]
-Api(k, call) == k \in Kinds /\ call \in DOMAIN Fn[k]
+On(k) == k \in Kinds /\ op.n < Depth                        \* kind switched on, history not yet at its bound
+Api(k, call) == On(k) /\ call \in DOMAIN Fn[k]
 VLive(k, x) == vec[k][x].live
 VD(k, x) == vec[k][x].d
 R(k, x) == <<k, x>>
@@ -183,46 +185,46 @@ SLive(x) == sv[x].live
 AllSet(x) == \A i \in 1..Len(sv[x].d) : sv[x].d[i] # UNSET
 IntStr(v) == ToString(v)
 DblStr(v) == ToString(v) \o ".000000"                      \* "%f" of a small natural
-SvInit(x) == /\ "sv" \in Kinds /\ ~SLive(x)
+SvInit(x) == /\ On("sv") /\ ~SLive(x)
              /\ sv' = [sv EXCEPT ![x] = Vec(<<>>)]
              /\ op' = O("initStrVector", "na", {}, {R("sv", x)}, {R("sv", x)}, [x |-> x])
              /\ UNCHANGED oSv
 \* NewStrVector(n): n slots whose content is undefined until setStr (the test suite fills every slot first)
-SvNew(x, n) == /\ "sv" \in Kinds /\ ~SLive(x)
+SvNew(x, n) == /\ On("sv") /\ ~SLive(x)
                /\ sv' = [sv EXCEPT ![x] = Vec(Fill(n, UNSET))]
                /\ op' = O("NewStrVector", "na", {}, {R("sv", x)}, {R("sv", x)}, [x |-> x, n |-> n])
                /\ UNCHANGED oSv
-SvDel(x) == /\ "sv" \in Kinds /\ SLive(x)
+SvDel(x) == /\ On("sv") /\ SLive(x)
             /\ sv' = [sv EXCEPT ![x] = DeadV]
             /\ op' = O("DelStrVector", "na", {R("sv", x)}, {}, {R("sv", x)}, [x |-> x])
             /\ UNCHANGED oSv
 \* StrVectorResize(n): n empty strings
-SvResize(x, n) == /\ "sv" \in Kinds /\ SLive(x)
+SvResize(x, n) == /\ On("sv") /\ SLive(x)
                   /\ sv' = [sv EXCEPT ![x] = Vec(Fill(n, ""))]
                   /\ op' = O("StrVectorResize", Rel(n, Len(sv[x].d)), {R("sv", x)}, {}, {R("sv", x)}, [x |-> x, n |-> n])
                   /\ UNCHANGED oSv
 \* StrVectorAppend re-reads every stored string: defined only when all slots are set
-SvAppend(x, s) == /\ "sv" \in Kinds /\ SLive(x) /\ AllSet(x) /\ Len(sv[x].d) < MaxDim
+SvAppend(x, s) == /\ On("sv") /\ SLive(x) /\ AllSet(x) /\ Len(sv[x].d) < MaxDim
                   /\ sv' = [sv EXCEPT ![x].d = Append(@, s)]
                   /\ op' = O("StrVectorAppend", "na", {R("sv", x)}, {}, {R("sv", x)}, [x |-> x, s |-> s])
                   /\ UNCHANGED oSv
-SvAppendInt(x, v) == /\ "sv" \in Kinds /\ SLive(x) /\ Len(sv[x].d) < MaxDim
+SvAppendInt(x, v) == /\ On("sv") /\ SLive(x) /\ Len(sv[x].d) < MaxDim
                      /\ sv' = [sv EXCEPT ![x].d = Append(@, IntStr(v))]
                      /\ op' = O("StrVectorAppendInt", "na", {R("sv", x)}, {}, {R("sv", x)}, [x |-> x, v |-> v])
                      /\ UNCHANGED oSv
-SvAppendDouble(x, v) == /\ "sv" \in Kinds /\ SLive(x) /\ Len(sv[x].d) < MaxDim
+SvAppendDouble(x, v) == /\ On("sv") /\ SLive(x) /\ Len(sv[x].d) < MaxDim
                         /\ sv' = [sv EXCEPT ![x].d = Append(@, DblStr(v))]
                         /\ op' = O("StrVectorAppendDouble", "na", {R("sv", x)}, {}, {R("sv", x)}, [x |-> x, v |-> v])
                         /\ UNCHANGED oSv
-SvSet(x, i, s) == /\ "sv" \in Kinds /\ SLive(x) /\ i < Len(sv[x].d)
+SvSet(x, i, s) == /\ On("sv") /\ SLive(x) /\ i < Len(sv[x].d)
                   /\ sv' = [sv EXCEPT ![x].d[i + 1] = s]
                   /\ op' = O("setStr", "in", {R("sv", x)}, {}, {R("sv", x)}, [x |-> x, i |-> i, s |-> s])
                   /\ UNCHANGED oSv
-SvGet(x, i) == /\ "sv" \in Kinds /\ SLive(x) /\ i < Len(sv[x].d) /\ sv[x].d[i + 1] # UNSET
+SvGet(x, i) == /\ On("sv") /\ SLive(x) /\ i < Len(sv[x].d) /\ sv[x].d[i + 1] # UNSET
                /\ op' = O("getStr", "in", {R("sv", x)}, {}, {}, [x |-> x, i |-> i, ret |-> sv[x].d[i + 1]])
                /\ UNCHANGED conts
 \* StrVectorExtend(a, b): a NEW strvector holding copies of a's then b's strings
-SvExtend(a, b, y) == /\ "sv" \in Kinds /\ SLive(a) /\ SLive(b) /\ ~SLive(y) /\ AllSet(a) /\ AllSet(b)
+SvExtend(a, b, y) == /\ On("sv") /\ SLive(a) /\ SLive(b) /\ ~SLive(y) /\ AllSet(a) /\ AllSet(b)
                      /\ Len(sv[a].d) + Len(sv[b].d) <= MaxDim
                      /\ sv' = [sv EXCEPT ![y] = Vec(sv[a].d \o sv[b].d)]
                      /\ op' = O("StrVectorExtend", Rel(Len(sv[b].d), Len(sv[a].d)), {R("sv", a), R("sv", b)}, {R("sv", y)}, {R("sv", y)}, [a |-> a, b |-> b, y |-> y])
@@ -232,76 +234,76 @@ SvExtend(a, b, y) == /\ "sv" \in Kinds /\ SLive(a) /\ SLive(b) /\ ~SLive(y) /\ A
 oMx == <<vec, sv, tn, dl>>
 MLive(x) == mx[x].live
 MShapeRel(d, s) == IF d.row = 0 /\ d.col = 0 THEN "dst-empty" ELSE IF SameShape(d, s) THEN "same-shape" ELSE "diff-shape"
-MxInit(x) == /\ "mx" \in Kinds /\ ~MLive(x)
+MxInit(x) == /\ On("mx") /\ ~MLive(x)
              /\ mx' = [mx EXCEPT ![x] = ConstM(0, 0, 0)]
              /\ op' = O("initMatrix", "na", {}, {R("mx", x)}, {R("mx", x)}, [x |-> x])
              /\ UNCHANGED oMx
 \* NewMatrix(r, c): r x c zeros; r > 0 /\ c = 0 and r = 0 /\ c > 0 are distinct legal shapes
-MxNew(x, r, c) == /\ "mx" \in Kinds /\ ~MLive(x)
+MxNew(x, r, c) == /\ On("mx") /\ ~MLive(x)
                   /\ mx' = [mx EXCEPT ![x] = ConstM(r, c, 0)]
                   /\ op' = O("NewMatrix", "na", {}, {R("mx", x)}, {R("mx", x)}, [x |-> x, r |-> r, c |-> c])
                   /\ UNCHANGED oMx
-MxDel(x) == /\ "mx" \in Kinds /\ MLive(x)
+MxDel(x) == /\ On("mx") /\ MLive(x)
             /\ mx' = [mx EXCEPT ![x] = DeadM]
             /\ op' = O("DelMatrix", "na", {R("mx", x)}, {}, {R("mx", x)}, [x |-> x])
             /\ UNCHANGED oMx
 \* ResizeMatrix "deletes all the data stored inside the matrix" (matrix.h:57): r x c zeros
-MxResize(x, r, c) == /\ "mx" \in Kinds /\ MLive(x)
+MxResize(x, r, c) == /\ On("mx") /\ MLive(x)
                      /\ mx' = [mx EXCEPT ![x] = ConstM(r, c, 0)]
                      /\ op' = O("ResizeMatrix", IF r = mx[x].row /\ c = mx[x].col THEN "same-shape" ELSE "diff-shape", {R("mx", x)}, {}, {R("mx", x)}, [x |-> x, r |-> r, c |-> c])
                      /\ UNCHANGED oMx
-MxFill(x, v) == /\ "mx" \in Kinds /\ MLive(x)
+MxFill(x, v) == /\ On("mx") /\ MLive(x)
                 /\ mx' = [mx EXCEPT ![x] = ConstM(@.row, @.col, v)]
                 /\ op' = O("MatrixSet", "na", {R("mx", x)}, {}, {R("mx", x)}, [x |-> x, v |-> v])
                 /\ UNCHANGED oMx
 \* MatrixCopy(src, &dst): dst (allocated, any shape) becomes an independent equal of src
-MxCopy(s, t) == /\ "mx" \in Kinds /\ MLive(s) /\ MLive(t) /\ s # t
+MxCopy(s, t) == /\ On("mx") /\ MLive(s) /\ MLive(t) /\ s # t
                 /\ mx' = [mx EXCEPT ![t] = mx[s]]
                 /\ op' = O("MatrixCopy", MShapeRel(mx[t], mx[s]), {R("mx", s), R("mx", t)}, {}, {R("mx", t)}, [src |-> s, dst |-> t])
                 /\ UNCHANGED oMx
-MxSet(x, i, j, v) == /\ "mx" \in Kinds /\ MLive(x) /\ i < mx[x].row /\ j < mx[x].col
+MxSet(x, i, j, v) == /\ On("mx") /\ MLive(x) /\ i < mx[x].row /\ j < mx[x].col
                      /\ mx' = [mx EXCEPT ![x].cell[i + 1][j + 1] = v]
                      /\ op' = O("setMatrixValue", "in", {R("mx", x)}, {}, {R("mx", x)}, [x |-> x, i |-> i, j |-> j, v |-> v])
                      /\ UNCHANGED oMx
-MxSetOor(x, i, j, v) == /\ "mx" \in Kinds /\ MLive(x) /\ ~(i < mx[x].row /\ j < mx[x].col)
+MxSetOor(x, i, j, v) == /\ On("mx") /\ MLive(x) /\ ~(i < mx[x].row /\ j < mx[x].col)
                         /\ op' = Oor("setMatrixValue", {R("mx", x)}, [x |-> x, i |-> i, j |-> j, v |-> v])
                         /\ UNCHANGED conts
-MxGet(x, i, j) == /\ "mx" \in Kinds /\ MLive(x) /\ i < mx[x].row /\ j < mx[x].col
+MxGet(x, i, j) == /\ On("mx") /\ MLive(x) /\ i < mx[x].row /\ j < mx[x].col
                   /\ op' = O("getMatrixValue", "in", {R("mx", x)}, {}, {}, [x |-> x, i |-> i, j |-> j, ret |-> mx[x].cell[i + 1][j + 1]])
                   /\ UNCHANGED conts
-MxGetOor(x, i, j) == /\ "mx" \in Kinds /\ MLive(x) /\ ~(i < mx[x].row /\ j < mx[x].col)
+MxGetOor(x, i, j) == /\ On("mx") /\ MLive(x) /\ ~(i < mx[x].row /\ j < mx[x].col)
                      /\ op' = Oor("getMatrixValue", {R("mx", x)}, [x |-> x, i |-> i, j |-> j])
                      /\ UNCHANGED conts
 \* getMatrixRow / getMatrixColumn return a NEW dvector (slot y of the dvector pool), NULL when out of range
-MxGetRow(x, i, y) == /\ "mx" \in Kinds /\ MLive(x) /\ i < mx[x].row /\ ~VLive("dv", y)
+MxGetRow(x, i, y) == /\ On("mx") /\ MLive(x) /\ i < mx[x].row /\ ~VLive("dv", y)
                      /\ vec' = [vec EXCEPT !["dv"][y] = Vec(MRow(mx[x], i + 1))]
                      /\ op' = O("getMatrixRow", "in", {R("mx", x)}, {R("dv", y)}, {R("dv", y)}, [x |-> x, i |-> i, y |-> y])
                      /\ UNCHANGED <<sv, mx, tn, dl>>
-MxGetRowOor(x, i) == /\ "mx" \in Kinds /\ MLive(x) /\ i >= mx[x].row
+MxGetRowOor(x, i) == /\ On("mx") /\ MLive(x) /\ i >= mx[x].row
                      /\ op' = Oor("getMatrixRow", {R("mx", x)}, [x |-> x, i |-> i])
                      /\ UNCHANGED conts
-MxGetCol(x, j, y) == /\ "mx" \in Kinds /\ MLive(x) /\ j < mx[x].col /\ ~VLive("dv", y)
+MxGetCol(x, j, y) == /\ On("mx") /\ MLive(x) /\ j < mx[x].col /\ ~VLive("dv", y)
                      /\ vec' = [vec EXCEPT !["dv"][y] = Vec(MCol(mx[x], j + 1))]
                      /\ op' = O("getMatrixColumn", "in", {R("mx", x)}, {R("dv", y)}, {R("dv", y)}, [x |-> x, j |-> j, y |-> y])
                      /\ UNCHANGED <<sv, mx, tn, dl>>
-MxGetColOor(x, j) == /\ "mx" \in Kinds /\ MLive(x) /\ j >= mx[x].col
+MxGetColOor(x, j) == /\ On("mx") /\ MLive(x) /\ j >= mx[x].col
                      /\ op' = Oor("getMatrixColumn", {R("mx", x)}, [x |-> x, j |-> j])
                      /\ UNCHANGED conts
 \* the operand v is a vector built for the call (dvector for Row/Col, uivector for UIRow/UICol), any length
-MxAppendRow(x, v, ui) == /\ "mx" \in Kinds /\ MLive(x) /\ mx[x].row < MaxDim
+MxAppendRow(x, v, ui) == /\ On("mx") /\ MLive(x) /\ mx[x].row < MaxDim
                          /\ mx' = [mx EXCEPT ![x] = MAppendRow(@, v)]
                          /\ op' = O(IF ui THEN "MatrixAppendUIRow" ELSE "MatrixAppendRow", Rel(Len(v), mx[x].col), {R("mx", x)}, {}, {R("mx", x)}, [x |-> x, v |-> v])
                          /\ UNCHANGED oMx
-MxAppendCol(x, v, ui) == /\ "mx" \in Kinds /\ MLive(x) /\ mx[x].col < MaxDim
+MxAppendCol(x, v, ui) == /\ On("mx") /\ MLive(x) /\ mx[x].col < MaxDim
                          /\ mx' = [mx EXCEPT ![x] = MAppendCol(@, v)]
                          /\ op' = O(IF ui THEN "MatrixAppendUICol" ELSE "MatrixAppendCol", Rel(Len(v), mx[x].row), {R("mx", x)}, {}, {R("mx", x)}, [x |-> x, v |-> v])
                          /\ UNCHANGED oMx
 \* delete with a valid index only (an invalid one is outside "valid operations": it is not an accessor)
-MxDelRow(x, k) == /\ "mx" \in Kinds /\ MLive(x) /\ k < mx[x].row
+MxDelRow(x, k) == /\ On("mx") /\ MLive(x) /\ k < mx[x].row
                   /\ mx' = [mx EXCEPT ![x] = MDelRow(@, k + 1)]
                   /\ op' = O("MatrixDeleteRowAt", "in", {R("mx", x)}, {}, {R("mx", x)}, [x |-> x, k |-> k])
                   /\ UNCHANGED oMx
-MxDelCol(x, k) == /\ "mx" \in Kinds /\ MLive(x) /\ k < mx[x].col
+MxDelCol(x, k) == /\ On("mx") /\ MLive(x) /\ k < mx[x].col
                   /\ mx' = [mx EXCEPT ![x] = MDelCol(@, k + 1)]
                   /\ op' = O("MatrixDeleteColAt", "in", {R("mx", x)}, {}, {R("mx", x)}, [x |-> x, k |-> k])
                   /\ UNCHANGED oMx
@@ -313,59 +315,59 @@ Order(x) == Len(tn[x].m)
 Filled(x) == \A k \in 1..Order(x) : tn[x].m[k].live           \* no NULL layer left by NewTensor(n)
 TShapeRel(d, s) == IF Len(d.m) = 0 THEN "dst-empty"
                    ELSE IF Len(d.m) = Len(s.m) /\ \A k \in 1..Len(s.m) : SameShape(d.m[k], s.m[k]) THEN "same-shape" ELSE "diff-shape"
-TnInit(x) == /\ "tn" \in Kinds /\ ~TLive(x)
+TnInit(x) == /\ On("tn") /\ ~TLive(x)
              /\ tn' = [tn EXCEPT ![x] = [live |-> TRUE, m |-> <<>>]]
              /\ op' = O("initTensor", "na", {}, {R("tn", x)}, {R("tn", x)}, [x |-> x])
              /\ UNCHANGED oTn
 \* NewTensor(n): n NULL layers, each to be created by NewTensorMatrix before anything else touches the tensor
-TnNew(x, n) == /\ "tn" \in Kinds /\ ~TLive(x)
+TnNew(x, n) == /\ On("tn") /\ ~TLive(x)
                /\ tn' = [tn EXCEPT ![x] = [live |-> TRUE, m |-> Fill(n, DeadM)]]
                /\ op' = O("NewTensor", "na", {}, {R("tn", x)}, {R("tn", x)}, [x |-> x, n |-> n])
                /\ UNCHANGED oTn
-TnNewMatrix(x, k, r, c) == /\ "tn" \in Kinds /\ TLive(x) /\ k < Order(x) /\ ~tn[x].m[k + 1].live
+TnNewMatrix(x, k, r, c) == /\ On("tn") /\ TLive(x) /\ k < Order(x) /\ ~tn[x].m[k + 1].live
                            /\ tn' = [tn EXCEPT ![x].m[k + 1] = ConstM(r, c, 0)]
                            /\ op' = O("NewTensorMatrix", "na", {R("tn", x)}, {}, {R("tn", x)}, [x |-> x, k |-> k, r |-> r, c |-> c])
                            /\ UNCHANGED oTn
-TnAdd(x, r, c) == /\ "tn" \in Kinds /\ TLive(x) /\ Filled(x) /\ Order(x) < MaxDim
+TnAdd(x, r, c) == /\ On("tn") /\ TLive(x) /\ Filled(x) /\ Order(x) < MaxDim
                   /\ tn' = [tn EXCEPT ![x].m = Append(@, ConstM(r, c, 0))]
                   /\ op' = O("AddTensorMatrix", "na", {R("tn", x)}, {}, {R("tn", x)}, [x |-> x, r |-> r, c |-> c])
                   /\ UNCHANGED oTn
-TnDel(x) == /\ "tn" \in Kinds /\ TLive(x) /\ Filled(x)
+TnDel(x) == /\ On("tn") /\ TLive(x) /\ Filled(x)
             /\ tn' = [tn EXCEPT ![x] = DeadT]
             /\ op' = O("DelTensor", "na", {R("tn", x)}, {}, {R("tn", x)}, [x |-> x])
             /\ UNCHANGED oTn
 TIn(x, k, i, j) == k < Order(x) /\ i < tn[x].m[k + 1].row /\ j < tn[x].m[k + 1].col
-TnSet(x, k, i, j, v) == /\ "tn" \in Kinds /\ TLive(x) /\ Filled(x) /\ TIn(x, k, i, j)
+TnSet(x, k, i, j, v) == /\ On("tn") /\ TLive(x) /\ Filled(x) /\ TIn(x, k, i, j)
                         /\ tn' = [tn EXCEPT ![x].m[k + 1].cell[i + 1][j + 1] = v]
                         /\ op' = O("setTensorValue", "in", {R("tn", x)}, {}, {R("tn", x)}, [x |-> x, k |-> k, i |-> i, j |-> j, v |-> v])
                         /\ UNCHANGED oTn
-TnSetOor(x, k, i, j, v) == /\ "tn" \in Kinds /\ TLive(x) /\ Filled(x) /\ ~TIn(x, k, i, j)
+TnSetOor(x, k, i, j, v) == /\ On("tn") /\ TLive(x) /\ Filled(x) /\ ~TIn(x, k, i, j)
                            /\ op' = Oor("setTensorValue", {R("tn", x)}, [x |-> x, k |-> k, i |-> i, j |-> j, v |-> v])
                            /\ UNCHANGED conts
-TnGet(x, k, i, j) == /\ "tn" \in Kinds /\ TLive(x) /\ Filled(x) /\ TIn(x, k, i, j)
+TnGet(x, k, i, j) == /\ On("tn") /\ TLive(x) /\ Filled(x) /\ TIn(x, k, i, j)
                      /\ op' = O("getTensorValue", "in", {R("tn", x)}, {}, {}, [x |-> x, k |-> k, i |-> i, j |-> j, ret |-> tn[x].m[k + 1].cell[i + 1][j + 1]])
                      /\ UNCHANGED conts
-TnGetOor(x, k, i, j) == /\ "tn" \in Kinds /\ TLive(x) /\ Filled(x) /\ ~TIn(x, k, i, j)
+TnGetOor(x, k, i, j) == /\ On("tn") /\ TLive(x) /\ Filled(x) /\ ~TIn(x, k, i, j)
                         /\ op' = Oor("getTensorValue", {R("tn", x)}, [x |-> x, k |-> k, i |-> i, j |-> j])
                         /\ UNCHANGED conts
 \* TensorAppendMatrix(t, m): a deep copy of m becomes the last layer; documented precondition: m has as many rows
 \* as the current last layer (tensor.c:162). The operand is a matrix r x c with cells f built for the call.
-TnAppendMatrix(x, r, c, f) == /\ "tn" \in Kinds /\ TLive(x) /\ Filled(x) /\ Order(x) < MaxDim
+TnAppendMatrix(x, r, c, f) == /\ On("tn") /\ TLive(x) /\ Filled(x) /\ Order(x) < MaxDim
                               /\ (Order(x) > 0 => tn[x].m[Order(x)].row = r)
                               /\ tn' = [tn EXCEPT ![x].m = Append(@, Mat(r, c, f))]
                               /\ op' = O("TensorAppendMatrix", IF Order(x) = 0 THEN "dst-empty" ELSE Rel(c, tn[x].m[Order(x)].col), {R("tn", x)}, {}, {R("tn", x)}, [x |-> x, r |-> r, c |-> c, f |-> f])
                               /\ UNCHANGED oTn
 \* TensorAppendColumn(t, k, v) is MatrixAppendCol on layer k
-TnAppendCol(x, k, v) == /\ "tn" \in Kinds /\ TLive(x) /\ Filled(x) /\ k < Order(x) /\ tn[x].m[k + 1].col < MaxDim
+TnAppendCol(x, k, v) == /\ On("tn") /\ TLive(x) /\ Filled(x) /\ k < Order(x) /\ tn[x].m[k + 1].col < MaxDim
                         /\ tn' = [tn EXCEPT ![x].m[k + 1] = MAppendCol(@, v)]
                         /\ op' = O("TensorAppendColumn", Rel(Len(v), tn[x].m[k + 1].row), {R("tn", x)}, {}, {R("tn", x)}, [x |-> x, k |-> k, v |-> v])
                         /\ UNCHANGED oTn
-TnFill(x, v) == /\ "tn" \in Kinds /\ TLive(x) /\ Filled(x)
+TnFill(x, v) == /\ On("tn") /\ TLive(x) /\ Filled(x)
                 /\ tn' = [tn EXCEPT ![x].m = [k \in 1..Len(@) |-> ConstM(@[k].row, @[k].col, v)]]
                 /\ op' = O("TensorSet", "na", {R("tn", x)}, {}, {R("tn", x)}, [x |-> x, v |-> v])
                 /\ UNCHANGED oTn
 \* TensorCopy(src, &dst): dst (allocated: empty, same shape or another shape) becomes an independent equal of src
-TnCopy(s, t) == /\ "tn" \in Kinds /\ TLive(s) /\ TLive(t) /\ s # t /\ Filled(s) /\ Filled(t)
+TnCopy(s, t) == /\ On("tn") /\ TLive(s) /\ TLive(t) /\ s # t /\ Filled(s) /\ Filled(t)
                 /\ tn' = [tn EXCEPT ![t] = tn[s]]
                 /\ op' = O("TensorCopy", TShapeRel(tn[t], tn[s]), {R("tn", s), R("tn", t)}, {}, {R("tn", t)}, [src |-> s, dst |-> t])
                 /\ UNCHANGED oTn
@@ -373,21 +375,21 @@ TnCopy(s, t) == /\ "tn" \in Kinds /\ TLive(s) /\ TLive(t) /\ s # t /\ Filled(s) 
 (* ---------------------------------------------------------------- dvectorlist ----------------- *)
 oDl == <<vec, sv, mx, tn>>
 LLive(x) == dl[x].live
-DlInit(x) == /\ "dl" \in Kinds /\ ~LLive(x)
+DlInit(x) == /\ On("dl") /\ ~LLive(x)
              /\ dl' = [dl EXCEPT ![x] = [live |-> TRUE, d |-> <<>>]]
              /\ op' = O("initDVectorList", "na", {}, {R("dl", x)}, {R("dl", x)}, [x |-> x])
              /\ UNCHANGED oDl
 \* NewDVectorList(n) leaves n uninitialised pointers and there is no call that fills them: only n = 0 is usable
-DlNew0(x) == /\ "dl" \in Kinds /\ ~LLive(x)
+DlNew0(x) == /\ On("dl") /\ ~LLive(x)
              /\ dl' = [dl EXCEPT ![x] = [live |-> TRUE, d |-> <<>>]]
              /\ op' = O("NewDVectorList", "na", {}, {R("dl", x)}, {R("dl", x)}, [x |-> x, n |-> 0])
              /\ UNCHANGED oDl
 \* DVectorListAppend(l, v): a deep copy of v becomes the last element
-DlAppend(x, v) == /\ "dl" \in Kinds /\ LLive(x) /\ Len(dl[x].d) < MaxDim
+DlAppend(x, v) == /\ On("dl") /\ LLive(x) /\ Len(dl[x].d) < MaxDim
                   /\ dl' = [dl EXCEPT ![x].d = Append(@, v)]
                   /\ op' = O("DVectorListAppend", IF Len(dl[x].d) = 0 THEN "dst-empty" ELSE Rel(Len(v), Len(dl[x].d[Len(dl[x].d)])), {R("dl", x)}, {}, {R("dl", x)}, [x |-> x, v |-> v])
                   /\ UNCHANGED oDl
-DlDel(x) == /\ "dl" \in Kinds /\ LLive(x)
+DlDel(x) == /\ On("dl") /\ LLive(x)
             /\ dl' = [dl EXCEPT ![x] = DeadL]
             /\ op' = O("DelDVectorList", "na", {R("dl", x)}, {}, {R("dl", x)}, [x |-> x])
             /\ UNCHANGED oDl
@@ -493,8 +495,7 @@ ShrinkLaw == [][/\ op'.name = "MatrixDeleteRowAt" =>
                                           IN Len(n) = Len(o) - 1 /\ \A i \in 1..Len(n) : n[i] = o[IF i < p THEN i ELSE i + 1]]_vars
 
 (* ---------------------------------------------------------------- MC plumbing ----------------- *)
-CONSTANT Depth
-DepthBound == op.n <= Depth                 \* exhaustive to this many operations
+DepthBound == op.n <= Depth                 \* every action is guarded by op.n < Depth (On): exhaustive to Depth calls
 View == <<conts, op.n>>                     \* distinct states = distinct (pool contents, history length): exact for any worker count
 
 (* ---------------------------------------------------------------- history generator (GEN) ----- *)
